@@ -34,7 +34,10 @@ CLAIMED = {
     "C04": ("Coq theorems: every cell of the model matrix is the optimum over partial paths, shape, out-of-band = "
             "inf; C04_code_matrix_is_spec / _with_bound / _code_value: dtw.warping_paths AS WRITTEN (PyWps.v) "
             "equals the specification matrix cell by cell, and with a bound every cell is equal or both exceed "
-            "the bound; dtw.warping_paths is compared with the as-written model on every cell, the C full matrix, "
+            "the bound; C04_py_warping_paths_fill_as_written[_with_bound]: the fill part of dtw.warping_paths "
+            "REGENERATED from dtw.py (Gen_pywps.v, tools/pyfun.py) fills exactly that matrix, with no subscript out "
+            "of range (PyWpsGen.v); dtw.warping_paths is compared with the as-written model and with the extracted "
+            "regenerated fill on every cell, the C full matrix, "
             "compact+expand and slice expansion cell-wise with the specification model applying the property's "
             "two freedoms",
             "a model of the C fill loops as written (regenerated geometry and recurrence text, CFillSim.v) is proved to "
@@ -55,7 +58,9 @@ CLAIMED = {
             "bookkeeping of the C warping-paths kernels: abstract theorem + correspondence",
             "Coq proof (PrunedDTW: abstract soundness + refinement of the as-written Python routine and of the "
             "regenerated C kernel and of the regenerated dtw.distance, C03_py_distance_as_written_bounded) + correspondence"),
-    "C09": ("Coq theorems C09_lb_keogh_le_dtw and C09_dtw_le_euclidean for all series/windows/penalties; lb_keogh_model "
+    "C09": ("Coq theorems C09_lb_keogh_le_dtw and C09_dtw_le_euclidean for all series/windows/penalties; "
+            "C09_c_euclidean_distance_*_as_written: the Euclidean routines of dd_ed.c, regenerated whole (Gen_ced.v), "
+            "equal the model of ed.distance with all accesses in range (CEd.v); lb_keogh_model "
             "uses the index arithmetic regenerated from dtw.lb_keogh; ed.distance/ed_cc/lb_keogh (py and C) compared "
             "with the extracted models; the sandwich re-checked on implementation values",
             "exact arithmetic; scalar series for LB_Keogh",
